@@ -16,6 +16,8 @@ import (
 	_ "github.com/btcsuite/btcwallet/walletdb/bdb" // driver
 	"github.com/btcsuite/btcwallet/wtxmgr"
 	"github.com/lightningnetwork/lnd/clock"
+
+	"verifharness/internal/walletenv"
 )
 
 var nsKey = []byte("wtxmgr")
@@ -32,6 +34,11 @@ type Driver struct {
 	Clock *clock.TestClock
 	U     *Universe
 	NowMs int64
+
+	// only set by NewWalletDriver (queries.go): the store is a real wallet's
+	env  *walletenv.Env
+	bk   *backends
+	past map[int64][][2]int64 // txid -> every (height, block id) it was confirmed in
 }
 
 // NewDriver creates a fresh store.
@@ -67,6 +74,9 @@ func NewDriver(u *Universe) (*Driver, error) {
 
 // Reopen closes and reopens the database file and the store (restart).
 func (d *Driver) Reopen() error {
+	if d.env != nil {
+		return errors.New("reopen is not supported on a wallet-backed driver")
+	}
 	if err := d.DB.Close(); err != nil {
 		return err
 	}
@@ -89,6 +99,13 @@ func (d *Driver) Reopen() error {
 
 // Close removes everything.
 func (d *Driver) Close() {
+	if d.env != nil {
+		// the chain backends are shared by all cases of the process:
+		// detach them so that Wallet.Stop does not stop them
+		d.env.W.VerifSetChainClient(nil)
+		d.env.Close()
+		return
+	}
 	if d.DB != nil {
 		d.DB.Close()
 	}
@@ -111,6 +128,11 @@ type StepOut struct {
 	Err    string `json:"err"`              // "" or error class
 	Lock   string `json:"lock,omitempty"`   // ok | unknown | already | notallowed
 	Expiry int64  `json:"expiry,omitempty"` // ms since Epoch, as returned by LockOutput
+	// Refused: a re-delivery (InsertTx + AddCredit of an already recorded
+	// transaction) was answered with an error and rolled back. The property
+	// fixes the observable state only, so "no-op" is as good as the
+	// idempotent re-application; the error text is kept for the record.
+	Refused string `json:"refused,omitempty"`
 }
 
 func blockMeta(e Event) *wtxmgr.BlockMeta {
@@ -145,6 +167,7 @@ func (d *Driver) relevantTx(ns walletdb.ReadWriteBucket, t *Tx, bm *wtxmgr.Block
 // Apply runs one event inside one database transaction, as the wallet does.
 func (d *Driver) Apply(e Event) StepOut {
 	var out StepOut
+	d.notePast(e)
 	if e.K == "tick" {
 		d.NowMs += e.Dt
 		d.Clock.SetTime(Epoch.Add(time.Duration(d.NowMs) * time.Millisecond))
@@ -219,7 +242,11 @@ func (d *Driver) Apply(e Event) StepOut {
 		return fmt.Errorf("unknown event %q", e.K)
 	})
 	if err != nil {
-		out.Err = err.Error()
+		if e.K == "redeliver" {
+			out.Refused = err.Error()
+		} else {
+			out.Err = err.Error()
+		}
 	}
 	return out
 }
@@ -248,24 +275,26 @@ type Details struct {
 	Mined   bool        `json:"mined"`
 	H       int64       `json:"h"`
 	B       int64       `json:"b"`
+	BT      int64       `json:"bt,omitempty"` // block time as recorded (compared between two histories only)
 	Credits []CreditRec `json:"credits"`
 	Debits  [][2]int64  `json:"debits"` // (input index, amount)
 }
 
 // Obs is everything observed after one event.
 type Obs struct {
-	Out     StepOut      `json:"out"`
-	Tip     int64        `json:"tip"`
-	Bal     []int64      `json:"bal"` // row-major over minconfs x syncoffs
-	Utxos   []Utxo       `json:"utxos"`
-	Watch   [][2]int64   `json:"watch"`
-	Unmined []int64      `json:"unmined"`
-	Sorted  []int64      `json:"sorted,omitempty"` // UnminedTxs order
-	Locked  [][4]int64   `json:"locked"`           // txid, idx, lock id, expiry ms
-	Details []Details    `json:"details,omitempty"`
-	Ranges  [][][]int64  `json:"ranges,omitempty"` // per query: groups of txids
-	RangeQ  [][2]int64   `json:"rangeq,omitempty"`
-	Unique  []Details    `json:"unique,omitempty"`
+	Out     StepOut     `json:"out"`
+	Tip     int64       `json:"tip"`
+	Bal     []int64     `json:"bal"` // row-major over minconfs x syncoffs
+	Utxos   []Utxo      `json:"utxos"`
+	Watch   [][2]int64  `json:"watch"`
+	Unmined []int64     `json:"unmined"`
+	Sorted  []int64     `json:"sorted,omitempty"` // UnminedTxs order
+	Locked  [][4]int64  `json:"locked"`           // txid, idx, lock id, expiry ms
+	Details []Details   `json:"details,omitempty"`
+	Ranges  [][][]int64 `json:"ranges,omitempty"` // per query: groups of txids
+	RangeQ  [][2]int64  `json:"rangeq,omitempty"`
+	Unique  []Details   `json:"unique,omitempty"`
+	Q       *QObs       `json:"q,omitempty"` // extra queries (queries.go), only when the case opts in
 }
 
 // BlockIDs resolves real block hashes back to block ids.
@@ -280,6 +309,7 @@ func (d *Driver) details(det *wtxmgr.TxDetails, t int64, bids BlockIDs) Details 
 	if det.Block.Height >= 0 {
 		out.Mined = true
 		out.H = int64(det.Block.Height)
+		out.BT = det.Block.Time.Unix()
 		if id, ok := bids[det.Block.Hash]; ok {
 			out.B = id
 		} else {
